@@ -77,6 +77,11 @@ type lfMutant struct {
 	fn    func(kind, text string) string
 }
 
+// mutantAlready (by mutant name, optional): when the tree under test itself has the defect the mutant models, the
+// unmutated run reports it already and the mutated run can add nothing: a base signature containing this text counts
+// as distinguished.
+var mutantAlready = map[string]string{}
+
 var lfMutants = []lfMutant{
 	{"wrapped layout drops its last element", []string{"list:14:fix", "vec:14:str", "lambda:long-call", "defun:let-long", "call:14:long"},
 		func(kind, text string) string {
@@ -205,6 +210,116 @@ var lfMutants = []lfMutant{
 		}},
 }
 
+// leafForm finds the defining form (head = "(defflavor " / "(defclass ") of the leaf of an inheritance world: the
+// definition whose name ends in "l" (inherit.go names the levels ...b, ...m, ...l).
+func leafForm(text, head string) (start, end int) {
+	from := 0
+	for {
+		i := strings.Index(text[from:], head)
+		if i < 0 {
+			return -1, -1
+		}
+		i += from
+		rest := text[i+len(head):]
+		k := strings.IndexAny(rest, " \n")
+		if 0 < k && strings.HasSuffix(rest[:k], "l") {
+			return i, matching(text, i)
+		}
+		from = i + len(head)
+	}
+}
+
+var flavorVarRe = regexp.MustCompile(`\(v\s+[^()\s]+\)`)
+var classSlotRe = regexp.MustCompile(`\(s\s+:initform\s+[^()\s]+\)`)
+
+// dropRepeatedInLeaf: a writer that leaves a binding out of the leaf's form when ANY other definition of the text
+// has the same binding (the correct rule looks at the nearest definition that has one).
+func dropRepeatedInLeaf(text, head string, re *regexp.Regexp) string {
+	i, j := leafForm(text, head)
+	if i < 0 {
+		return text
+	}
+	leaf := text[i:j]
+	loc := re.FindStringIndex(leaf)
+	if loc == nil {
+		return text
+	}
+	binding := strings.Join(strings.Fields(leaf[loc[0]:loc[1]]), " ")
+	others := text[:i] + text[j:]
+	for _, m := range re.FindAllString(others, -1) {
+		if strings.Join(strings.Fields(m), " ") == binding {
+			return text[:i] + leaf[:loc[0]] + leaf[loc[1]:] + text[j:]
+		}
+	}
+	return text
+}
+
+func init() {
+	lfMutants = append(lfMutants,
+		lfMutant{"defflavor load form leaves a variable out when ANY component (not the nearest one that has it) gives the same default",
+			[]string{"inh:fl:default:chain:num:aba", "inh:fl:default:mixin:sym:bab", "inh:fl:default:chain:num:aab", "inh:fl:default:chain:num:a-a"},
+			func(kind, text string) string {
+				if kind != "flavor" {
+					return text
+				}
+				return dropRepeatedInLeaf(text, "(defflavor ", flavorVarRe)
+			}},
+		lfMutant{"defclass load form leaves a slot out when an ancestor has the same slot description",
+			[]string{"inh:cl:initform:chain:num:aba", "inh:cl:initform:mixin:num:bab", "inh:cl:initform:chain:num:a-a"},
+			func(kind, text string) string {
+				if kind != "class" {
+					return text
+				}
+				return dropRepeatedInLeaf(text, "(defclass ", classSlotRe)
+			}},
+		lfMutant{"defgeneric load form writes one method per class chain: the leaf's method is left out when it has the body of an ancestor's",
+			[]string{"inh:cl:generic-method:chain:x:aba", "inh:cl:generic-method:mixin:x:bab"},
+			func(kind, text string) string {
+				if kind != "generic" {
+					return text
+				}
+				// (:method ((o ...l)) BODY) of the leaf: dropped when another (:method ...) has the same body text
+				from := 0
+				for {
+					i := strings.Index(text[from:], "(:method")
+					if i < 0 {
+						return text
+					}
+					i += from
+					j := matching(text, i)
+					m := text[i:j]
+					k := strings.Index(m, "))")
+					if 0 < k && strings.HasSuffix(m[:k], "l") {
+						body := strings.Join(strings.Fields(m[k+2:]), " ")
+						if strings.Contains(strings.Join(strings.Fields(text[:i]+text[j:]), " "), body) {
+							return text[:i] + text[j:]
+						}
+						return text
+					}
+					from = j
+				}
+			}})
+	snapMutants = append(snapMutants,
+		snapMutant{"snapshot leaves a flavor variable out when ANY component gives the same default",
+			[]string{"snap|inh:fl:default:chain:num:aba", "snap|inh:fl:default:mixin:sym:bab"},
+			func(text string) string { return dropRepeatedInLeaf(text, "(defflavor ", flavorVarRe) }},
+		snapMutant{"snapshot leaves a slot out of a defclass form when an ancestor has the same slot description",
+			[]string{"snap|inh:cl:initform:chain:num:aba"},
+			func(text string) string { return dropRepeatedInLeaf(text, "(defclass ", classSlotRe) }})
+	for _, m := range lfMutants[len(lfMutants)-3:] {
+		switch {
+		case strings.HasPrefix(m.name, "defflavor"):
+			mutantAlready[m.name] = "probe-differs:value-of-v"
+		case strings.HasPrefix(m.name, "defclass"):
+			mutantAlready[m.name] = "probe-differs:value-of-s"
+		default:
+			mutantAlready[m.name] = "probe-differs:method-result"
+		}
+	}
+	mutantAlready[snapMutants[len(snapMutants)-2].name] = "probe=value-of-v"
+	mutantAlready[snapMutants[len(snapMutants)-1].name] = "probe=value-of-s"
+}
+
 type snapMutant struct {
 	name     string
 	sessions []string
@@ -236,11 +351,23 @@ var snapMutants = []snapMutant{
 		func(text string) string { return strings.ReplaceAll(text, "(y 3)", "y") }},
 }
 
+func alreadyIn(base map[string]bool, part string) string {
+	if part == "" {
+		return ""
+	}
+	for sig := range base {
+		if strings.Contains(sig, part) {
+			return sig
+		}
+	}
+	return ""
+}
+
 func selftest(tier string) (killed, total int, notes []string) {
 	sigsOf := func(labels []string) map[string]bool {
 		m := map[string]bool{}
 		for _, l := range labels {
-			c := lfIndex[l]
+			c := lfCaseOf(l)
 			if c == nil {
 				m["harness:selftest-unknown-case "+l] = true
 				continue
@@ -273,6 +400,9 @@ func selftest(tier string) (killed, total int, notes []string) {
 		if ns := newSigs(base, mut); 0 < len(ns) {
 			killed++
 			notes = append(notes, fmt.Sprintf("killed: %s (%d new signatures, e.g. %s)", m.name, len(ns), ns[0]))
+		} else if sig := alreadyIn(base, mutantAlready[m.name]); sig != "" {
+			killed++
+			notes = append(notes, fmt.Sprintf("killed: %s (the tree under test already fails that way without the mutation: %s)", m.name, sig))
 		} else {
 			notes = append(notes, "SURVIVED: "+m.name)
 		}
@@ -298,6 +428,9 @@ func selftest(tier string) (killed, total int, notes []string) {
 		if ns := newSigs(base, mut); 0 < len(ns) {
 			killed++
 			notes = append(notes, fmt.Sprintf("killed: %s (%d new signatures, e.g. %s)", m.name, len(ns), ns[0]))
+		} else if sig := alreadyIn(base, mutantAlready[m.name]); sig != "" {
+			killed++
+			notes = append(notes, fmt.Sprintf("killed: %s (the tree under test already fails that way without the mutation: %s)", m.name, sig))
 		} else {
 			notes = append(notes, "SURVIVED: "+m.name)
 		}
